@@ -283,6 +283,8 @@ def main(argv=None):
         lst.sort(key=lambda x: (len(json.dumps(x[0], default=jdefault)), x[1]['stats']['steps']))
         case, res, v = lst[0]
         try:
+            if os.environ.get('VERIF_NO_MINIMISE'):
+                raise RuntimeError('minimisation disabled')
             mcase, mres = minimise(prop, case, res, sig, jobs=a.jobs)
         except Exception as e:   # noqa
             mcase, mres = dict(case, script=unrle(res.get('decisions') or []), lenient=True), res
